@@ -818,10 +818,13 @@ func (e *Env) index(v, i *SV) *SV {
 			return &SV{S: "(str.to_code (str.at " + v.S + " " + i.S + "))", T: types.Typ[types.Uint8]}
 		}
 	case *types.Map:
-		vk, vs, _, _, _, _ := c.mapHeaps(u)
+		// Go semantics: the zero value for a key that is not in the map (or a nil map)
+		vk, vs, hk, hs, _, _ := c.mapHeaps(u)
 		h := c.heapGet(e.st, vk, vs)
+		hh := c.heapGet(e.st, hk, hs)
 		key := e.coerce(i, u.Key())
-		return &SV{S: "(select (select " + h + " " + v.S + ") " + key.S + ")", T: u.Elem()}
+		present := "(and (not (= " + v.S + " 0)) (select (select " + hh + " " + v.S + ") " + key.S + "))"
+		return &SV{S: "(ite " + present + " (select (select " + h + " " + v.S + ") " + key.S + ") " + c.zero(u.Elem()) + ")", T: u.Elem()}
 	case *types.Pointer:
 		if a, ok := u.Elem().Underlying().(*types.Array); ok {
 			k, s := c.elemHeap(c.sortOf(a.Elem()))
